@@ -3,6 +3,7 @@ package main
 // gowp check -property Cxx [-tier quick|thorough]: the registered check of one property.
 
 import (
+	"os/exec"
 	"encoding/json"
 	"flag"
 	"fmt"
@@ -337,6 +338,69 @@ func cmdCheck(args []string) {
 		slowest = slowest[:5]
 	}
 	instances := len(obls)
+	// thorough tier: the witness tests of the property are run against the tree under check (a test of a repaired
+	// defect has to pass: if it fails the defect is back; a test of a known finding is expected to fail), and the
+	// property's selftest mutants are run through the quick check in scratch worktrees (each has to be caught)
+	var witnessRuns []map[string]interface{}
+	selftest := map[string]interface{}{}
+	tracesValidated := 0
+	if *tier == "thorough" {
+		seenSpec := map[string]bool{}
+		var prefixes []string
+		for pre := range cl.Replay {
+			prefixes = append(prefixes, pre)
+		}
+		sort.Strings(prefixes)
+		for _, pre := range prefixes {
+			spec := cl.Replay[pre]
+			if seenSpec[spec] {
+				continue
+			}
+			seenSpec[spec] = true
+			text, failed := v.tryReplay(*prop, pre, nil, cl, *repo)
+			isKnown := false
+			for _, kf := range known {
+				if kf.Property == *prop && kf.Status == "known" && (strings.HasPrefix(pre, kf.Obligation) || strings.HasPrefix(kf.Obligation, pre)) {
+					isKnown = true
+				}
+			}
+			parts := strings.Split(spec, "|")
+			res := "passes (the repaired defect has not returned)"
+			switch {
+			case failed && isKnown:
+				res = "fails as recorded (known finding)"
+			case failed:
+				res = "FAILS"
+				violations++
+				file := filepath.Join(replayDir, "witness-"+sanitizeFile(parts[2])+".txt")
+				os.WriteFile(file, []byte("witness test of obligation "+pre+" fails on the tree under check\n\n"+text), 0o644)
+				lines = append(lines, fmt.Sprintf("VIOLATION property=%s replay=%s", *prop, file))
+			case isKnown:
+				res = "passes although the finding is recorded as known (was it repaired?)"
+			}
+			tracesValidated++
+			witnessRuns = append(witnessRuns, map[string]interface{}{"obligation": pre, "test": parts[2], "result": res})
+		}
+		if *repo == "/repo" {
+			muts, _ := filepath.Glob(filepath.Join(vdir, "selftest", "mutants", *prop+"_*.diff"))
+			sort.Strings(muts)
+			caught, missed := 0, []string{}
+			for _, m := range muts {
+				cmd := exec.Command(filepath.Join(vdir, "selftest", "mutant.sh"), m, "check", "-property", *prop, "-tier", "quick")
+				cmd.Env = append(os.Environ(), "VERIF_SCRATCH="+filepath.Join(os.TempDir(), fmt.Sprintf("gowp-selftest-%d", os.Getpid())))
+				out, _ := cmd.CombinedOutput()
+				if strings.Contains(string(out), "VIOLATION property="+*prop) {
+					caught++
+				} else {
+					missed = append(missed, filepath.Base(m))
+				}
+			}
+			selftest = map[string]interface{}{"mutants": len(muts), "caught": caught, "missed": missed}
+			if len(missed) > 0 {
+				fmt.Printf("SELFTEST: %d of %d deliberately broken variants of the code were not reported by this check: %v\n", len(missed), len(muts), missed)
+			}
+		}
+	}
 	ev := map[string]interface{}{
 		"property_id": *prop,
 		"tier":        *tier,
@@ -365,7 +429,9 @@ func cmdCheck(args []string) {
 			"samples":                   samples,
 			"not_decided":               cl.NotDecided,
 			"explanation":               cl.Explanation,
-			"traces_validated_against_impl": 0,
+			"traces_validated_against_impl": tracesValidated,
+			"witness_tests_run_on_this_tree": witnessRuns,
+			"selftest_mutants": selftest,
 		},
 	}
 	b, _ := json.MarshalIndent(ev, "", " ")
